@@ -49,6 +49,11 @@ pub fn check_literal(s: &str) -> Vec<String> {
         }
         let ef = spec::spec_format(s);
         let rf = real::format(s);
+        if let Some((rest, f)) = &rf {
+            if rest.is_empty() && !spec::rustc_accepts_single_placeholder(s) {
+                out.push(format!("format({s:?}): the derive takes the whole literal for ONE placeholder ({f:?}) and may delegate transparently without ever handing it to format_args!, but rustc rejects this literal: silently accepted"));
+            }
+        }
         if let Some(ef) = &ef {
             if rf.as_ref() != Some(ef) {
                 out.push(format!("format({s:?}) [single placeholder, used for transparency]: std::fmt: {ef:?}, derive: {rf:?}"));
